@@ -40,6 +40,8 @@ def make_config(arch=6, msa='PMSA', sec=True, virt=False, lpae=False, v7r=False,
     c['memory_list'] = [dict(mem_type='RAM', beginning=b, end=e) for b, e in mems]
     if sctlr is not None:
         c['reset_values']['SCTLR'] = '0b' + format(sctlr, '032b')
+    for regname, value in (extra.pop('reset_values', None) or {}).items():
+        c['reset_values'][regname] = '0b' + format(value, '032b')
     c.update(extra)
     return c
 
